@@ -2,6 +2,7 @@ package an
 
 import (
 	"fmt"
+	"golang.org/x/tools/go/ssa"
 	"os"
 	"regexp"
 	"sort"
@@ -207,6 +208,7 @@ func runC10(w *World) *Result {
 	PrefixDigestRule(w, r, "R-C10-prefix", nil)
 	c09PrefixApplied(w, r, "R-C10-prefix")
 	prefixSpellable(w, r, "R-C10-prefix")
+	PrefixBuilderRule(w, r, "R-C10-prefix")
 	r.Rule("R-C10-redecl", "a name that is already visible is rejected as a new variable on every path (no second variable under a spelling that is emitted as one shell name)", 1)
 	if cf, err := buildCtxFacts(w); err == nil {
 		NewnessStrictRule(w, cf, r, "R-C10-redecl")
@@ -563,4 +565,138 @@ func c10HelperLocals(b *Backend) map[string]string {
 		}
 	}
 	return out
+}
+
+// PrefixBuilderRule: the function that puts a file's name-space prefix in front of a name
+// leaves a name alone only when it carries *that* prefix already. A test that looks at the
+// name alone ("looks prefixed") leaves names with another file's prefix – or any user name of
+// that shape – in the importer's name space.
+func PrefixBuilderRule(w *World, r *Result, rule string) {
+	var depends func(v, on ssa.Value, d int, seen map[ssa.Value]bool) bool
+	depends = func(v, on ssa.Value, d int, seen map[ssa.Value]bool) bool {
+		if v == on {
+			return true
+		}
+		if v == nil || d > 8 || seen[v] {
+			return false
+		}
+		seen[v] = true
+		if sl, ok := v.(*ssa.Slice); ok {
+			if al, ok := sl.X.(*ssa.Alloc); ok {
+				for _, ref := range *al.Referrers() {
+					if ia, ok := ref.(*ssa.IndexAddr); ok {
+						for _, r2 := range *ia.Referrers() {
+							if st, ok := r2.(*ssa.Store); ok && depends(st.Val, on, d+1, seen) {
+								return true
+							}
+						}
+					}
+				}
+			}
+		}
+		if u, ok := v.(*ssa.UnOp); ok {
+			if g, ok := u.X.(*ssa.Global); ok {
+				_ = g
+				return false
+			}
+		}
+		if ins, ok := v.(ssa.Instruction); ok {
+			var ops []*ssa.Value
+			for _, o := range ins.Operands(ops) {
+				if *o != nil && depends(*o, on, d+1, seen) {
+					return true
+				}
+			}
+		}
+		return false
+	}
+	n := 0
+	for _, fn := range w.Funcs("parser") {
+		if fn.Signature.Recv() != nil || len(fn.Params) != 2 || !isString(fn.Params[0].Type()) || !isString(fn.Params[1].Type()) || fn.Signature.Results().Len() != 1 || !isString(fn.Signature.Results().At(0).Type()) || fn.Parent() != nil {
+			continue
+		}
+		// the builder: some result is made of both parameters, some result is one parameter as it is
+		var joined bool
+		var bare *ssa.Parameter
+		var bareEdges [][2]*ssa.BasicBlock
+		for _, b := range fn.Blocks {
+			ret, ok := b.Instrs[len(b.Instrs)-1].(*ssa.Return)
+			if !ok {
+				continue
+			}
+			var look func(v ssa.Value, pred, blk *ssa.BasicBlock, d int)
+			look = func(v ssa.Value, pred, blk *ssa.BasicBlock, d int) {
+				if d > 4 {
+					return
+				}
+				switch x := v.(type) {
+				case *ssa.Parameter:
+					bare = x
+					bareEdges = append(bareEdges, [2]*ssa.BasicBlock{pred, blk})
+				case *ssa.Phi:
+					for i, e := range x.Edges {
+						look(e, x.Block().Preds[i], x.Block(), d+1)
+					}
+				default:
+					if depends(v, fn.Params[0], 0, map[ssa.Value]bool{}) && depends(v, fn.Params[1], 0, map[ssa.Value]bool{}) {
+						joined = true
+					}
+				}
+			}
+			look(ret.Results[0], nil, b, 0)
+		}
+		if !joined || bare == nil {
+			continue
+		}
+		other := fn.Params[0]
+		if bare == fn.Params[0] {
+			other = fn.Params[1]
+		}
+		n++
+		key := "prefix:builder:" + FuncName(fn)
+		pos := w.Pos(fn.Pos())
+		bad := ""
+		for _, e := range bareEdges {
+			at := e[0]
+			if at == nil {
+				at = e[1]
+			}
+			// the branch the edge itself leaves
+			if e[0] != nil {
+				if c, _ := condOf(e[0]); c != nil && len(e[0].Succs) == 2 && e[0].Succs[0] != e[0].Succs[1] {
+					if depends(c, bare, 0, map[ssa.Value]bool{}) && !depends(c, other, 0, map[ssa.Value]bool{}) {
+						bad = w.Pos(c.Pos())
+					}
+				}
+			}
+			for d := at; d != nil; d = d.Idom() {
+				p := d.Idom()
+				if p == nil {
+					break
+				}
+				c, _ := condOf(p)
+				if c == nil || len(p.Succs) != 2 {
+					continue
+				}
+				onT := p.Succs[0] == at || (p.Succs[0].Dominates(at) && len(p.Succs[0].Preds) == 1)
+				onF := p.Succs[1] == at || (p.Succs[1].Dominates(at) && len(p.Succs[1].Preds) == 1)
+				if onT == onF {
+					continue
+				}
+				dn := depends(c, bare, 0, map[ssa.Value]bool{})
+				dp := depends(c, other, 0, map[ssa.Value]bool{})
+				if dn && !dp {
+					bad = w.Pos(c.Pos())
+				}
+			}
+		}
+		if bad != "" {
+			r.Bad(rule, key, pos, fmt.Sprintf("%s hands back the name as it is under a test (%s) that looks at the name only, not at the prefix it was asked to apply: a global whose spelling looks prefixed (another file's prefix, or a user name of that shape) keeps its bare name and shares the importer's name space", FuncName(fn), bad))
+		} else {
+			r.Ok(rule, key, pos, "a name is left alone only under a test against the prefix that was to be applied (or when there is no prefix)")
+		}
+	}
+	if n == 0 {
+		r.Bad(rule, "prefix:builder:none", "-", "no function found that puts a prefix in front of a name")
+	}
 }
